@@ -272,8 +272,8 @@ fn unescape_sparql_iri(value: &str) -> String {
         if matches!(escaped, 'u' | 'U') {
             let digits = if escaped == 'u' { 4 } else { 8 };
             let hexadecimal = &escape[escaped.len_utf8()..];
-            if hexadecimal.len() >= digits {
-                if let Ok(codepoint) = u32::from_str_radix(&hexadecimal[..digits], 16) {
+            if let Some(hex_digits) = hexadecimal.get(..digits) {
+                if let Ok(codepoint) = u32::from_str_radix(hex_digits, 16) {
                     if let Some(decoded) = char::from_u32(codepoint) {
                         result.push(decoded);
                         index += 1 + escaped.len_utf8() + digits;
@@ -333,8 +333,8 @@ fn literal_lexical_value(literal: &str) -> String {
                     'u' | 'U' => {
                         let digits = if escaped == 'u' { 4 } else { 8 };
                         let hexadecimal = &escape[escaped.len_utf8()..];
-                        if hexadecimal.len() >= digits {
-                            if let Ok(codepoint) = u32::from_str_radix(&hexadecimal[..digits], 16) {
+                        if let Some(hex_digits) = hexadecimal.get(..digits) {
+                            if let Ok(codepoint) = u32::from_str_radix(hex_digits, 16) {
                                 if let Some(decoded) = char::from_u32(codepoint) {
                                     value.push(decoded);
                                     index += 1 + escaped.len_utf8() + digits;
